@@ -157,20 +157,21 @@ class Shard:
 
 
 class System:
-    def __init__(self, scratch, binp, sizes, nshards, opts):
+    def __init__(self, scratch, binp, sizes, nshards, opts, nrep=1):
         self.d = os.path.join(scratch, 'system')
         os.makedirs(self.d)
         self.opts = opts
         self.targets = [TargetSrv(i + 1, s) for i, s in enumerate(sizes)]
         self.disc = set()
-        self.shards = [Shard(binp, os.path.join(self.d, 'shard-%d' % i), i) for i in range(nshards)]
+        self.shards = [Shard(binp, os.path.join(self.d, 'shard-%d' % i), i) for i in range(nshards * nrep)]
+        self.reps = [self.shards[r * nshards:(r + 1) * nshards] for r in range(nrep)]
         self.cfgfile = os.path.join(self.d, 'prometheus.yml')
         self.static = os.path.join(self.d, 'static-shards.yaml')
-        yaml.safe_dump(dict(replicas=[dict(shards=[dict(id='shard-%d' % s.idx, url=s.api) for s in self.shards])]), open(self.static, 'w'))
+        yaml.safe_dump(dict(replicas=[dict(shards=[dict(id='shard-%d' % s.idx, url=s.api) for s in rp]) for rp in self.reps]), open(self.static, 'w'))
         self.web = '127.0.0.1:%d' % B.free_port()
         self.binp = binp
         self.coord = None
-        self.snaps = []
+        self.snaps = [[] for _ in self.reps]      # per replica
         self.byhash = {}
         self.timeout = '10s'
 
@@ -192,6 +193,9 @@ class System:
             if not s.start():
                 raise C.Inconclusive('a kvass sidecar process did not come up')
         self.write_cfg()
+        self.start_coordinator()
+
+    def start_coordinator(self):
         o = self.opts
         self.coord = subprocess.Popen([self.binp, 'coordinator', '--shard.type=static', '--shard.static-file=' + self.static,
                                        '--config.file=' + self.cfgfile, '--coordinator.interval=' + CYCLE,
@@ -237,9 +241,13 @@ class System:
         return self.byhash.get(h, 0)
 
     def snapshot(self, label):
-        """the world in the shape of Kvass!World; None while a sidecar does not answer"""
+        """one world per replica; None for a replica of which a sidecar does not answer"""
+        return [self.snapshot_rep(label, r) for r in range(len(self.reps))]
+
+    def snapshot_rep(self, label, rep):
+        """the world of one replica in the shape of Kvass!World"""
         shards = []
-        for s in self.shards:
+        for s in self.reps[rep]:
             try:
                 st, rt = s.status()
             except Exception:
@@ -257,7 +265,7 @@ class System:
         w = dict(nsh=len(shards), clock=0, shards=shards, disc=sorted(self.disc),
                  size=[dict(series=t.series, total=t.series) for t in self.targets], alive=[t.alive for t in self.targets],
                  est=[dict(known=True, health='up' if t.alive else 'down', series=t.series, total=t.series) for t in self.targets])
-        self.snaps.append(dict(a=label, world=w, real=[[] for _ in shards]))
+        self.snaps[rep].append(dict(a=label, world=w, real=[[] for _ in shards]))
         return w
 
     def converged(self, w):
@@ -275,12 +283,13 @@ class System:
                     return False
         return True
 
-    def quiet(self, label, deadline=DEADLINE, hold=1.2):
-        """nothing is changed from outside until the world has been converged for `hold` seconds (or the deadline passes)"""
+    def quiet(self, label, deadline=DEADLINE, hold=1.2, reps=None):
+        """nothing is changed from outside until the world (every replica, or the named ones) has been converged for `hold`
+        seconds (or the deadline passes)"""
         t0, since = time.time(), None
         while time.time() - t0 < deadline:
-            w = self.snapshot(label)
-            if self.converged(w):
+            ws = self.snapshot(label)
+            if all(self.converged(ws[r]) for r in (reps if reps is not None else range(len(self.reps)))):
                 since = since or time.time()
                 if time.time() - since >= hold:
                     return True
@@ -301,12 +310,12 @@ class System:
             t.close()
 
 
-def scenario(scratch, binp, rnd):
-    """one run; returns (run record for KvassEval, notes)"""
+def scenario(scratch, binp, rnd, nrep=1):
+    """one run; returns (run records for KvassEval - one per phase and replica -, notes)"""
     opts = dict(maxHead=10, maxProc=20, minShard=1, maxShard=4, maxIdle=0, noAlleviate=False, static=True)
     # (two fixed shards: sizes that fit whatever way the first assignments pack them)
     sizes = [3, 3, 2, rnd.choice([1, 2]), 1]
-    sysm = System(scratch, binp, sizes, 2, opts)
+    sysm = System(scratch, binp, sizes, 2, opts, nrep)
     notes = []
     try:
         sysm.disc = {1, 2, 3, 4}
@@ -314,12 +323,32 @@ def scenario(scratch, binp, rnd):
         phases = []
         phases.append(('start', sysm.quiet('start')))
         # a sidecar is killed and started again on its store
-        k = rnd.randrange(2)
+        k = rnd.randrange(len(sysm.shards))
         sysm.shards[k].kill()
         time.sleep(rnd.choice([0.0, 0.3]))
         if not sysm.shards[k].start():
             raise C.Inconclusive('the restarted sidecar did not come up')
         phases.append(('restart', sysm.quiet('restart')))
+        # the coordinator is killed and started again: it keeps nothing, and nothing changes
+        sysm.coord.send_signal(signal.SIGKILL)
+        sysm.coord.wait()
+        sysm.start_coordinator()
+        phases.append(('coordinator-restart', sysm.quiet('coordinator-restart')))
+        if nrep > 1:
+            # a whole replica does not answer while a target is added: the other replicas are coordinated all the same
+            down = 0      # the replica that is coordinated first: whatever happens to it, the later ones get their turn
+            for sh in sysm.reps[down]:
+                sh.kill()
+            sysm.disc.add(5)
+            sysm.write_cfg()
+            phases.append(('replica-down', sysm.quiet('replica-down', reps=[r for r in range(nrep) if r != down])))
+            for sh in sysm.reps[down]:
+                if not sh.start():
+                    raise C.Inconclusive('a restarted sidecar did not come up')
+            phases.append(('replica-back', sysm.quiet('replica-back')))
+            sysm.disc.discard(5)
+            sysm.write_cfg()
+            phases.append(('removed-5', sysm.quiet('removed-5')))
         # a target is added while one shard's Prometheus refuses reloads for a while
         j = -1
         for sh in sysm.shards:         # (whichever shard is given the new target: its reload is refused, the update has to come again)
@@ -334,7 +363,7 @@ def scenario(scratch, binp, rnd):
             sh.prom.refuse = False
         phases.append(('reload-refused', sysm.quiet('reload-refused')))
         # a target grows: its shard may become overloaded and hand a target over to the other one
-        g, w = rnd.choice([1, 2]), sysm.snaps[-1]['world']
+        g, w = rnd.choice([1, 2]), sysm.snaps[0][-1]['world']
         newsize = 6
         for sh in sorted(w['shards'], key=lambda sh: -sum(r['series'] for r in sh['status'])):
             load = sum(r['series'] for r in sh['status'])
@@ -374,30 +403,32 @@ def scenario(scratch, binp, rnd):
         sysm.disc.add(gone)
         sysm.write_cfg()
         phases.append(('added-again', sysm.quiet('added-again')))
-        steps = sysm.snaps
-        # the formulas look at the end of the run; every phase that did not converge is reported through its own cut of the run
+        # the formulas look at the end of a run; every phase is judged on its own cut of the samples of every replica
         runs = []
-        pos = 0
-        for name, ok in phases:
-            last = max(i for i, s in enumerate(steps) if s['a'] == name)
-            runs.append(dict(phase=name, converged_in_time=ok, steps=steps[:last + 1], quietFrom=last + 1, expectConverge=True, opts=opts))
-        return runs, dict(sizes=sizes, restarted=k, grown=g, removed=gone, snapshots=len(steps), scrapes=[s.prom.scrapes for s in sysm.shards],
+        for rep, steps in enumerate(sysm.snaps):
+            for name, ok in phases:
+                idx = [i for i, x in enumerate(steps) if x['a'] == name]
+                if not idx:
+                    continue       # (the replica that was down during that phase)
+                runs.append(dict(phase=name, replica=rep, converged_in_time=ok, steps=steps[:idx[-1] + 1], quietFrom=idx[-1] + 1, expectConverge=True, opts=opts))
+        allsteps = [x for st in sysm.snaps for x in st]
+        return runs, dict(sizes=sizes, replicas=nrep, restarted=k, grown=g, removed=gone, snapshots=len(allsteps), scrapes=[s.prom.scrapes for s in sysm.shards],
                           reloads_refused=sum(s.prom.refused for s in sysm.shards),
-                          snapshots_with_a_transfer_pending=sum(1 for x in steps if any(r['state'] != '' for sh in x['world']['shards'] for r in sh['status'])))
+                          snapshots_with_a_transfer_pending=sum(1 for x in allsteps if any(r['state'] != '' for sh in x['world']['shards'] for r in sh['status'])))
     finally:
         sysm.close()
 
 
-def evaluate(scratch, sd, tier, seed):
+def evaluate(scratch, sd, tier, seed, nrep=1):
     """runs the scenarios and lets TLC evaluate KvassProps on the recorded worlds; returns (violations, coverage notes)"""
     import random
     binp = B.build(scratch)
     rnd = random.Random(seed * 977 + 5)
     runs, notes = [], []
-    for k in range(1 if tier == 'quick' else 4):
+    for k in range(1 if tier == 'quick' else (4 if nrep == 1 else 2)):
         sub = os.path.join(scratch, 'sys%d' % k)
         os.makedirs(sub)
-        rs, n = scenario(sub, binp, rnd)
+        rs, n = scenario(sub, binp, rnd, nrep)
         for r in rs:
             r['id'] = 900000 + len(runs)
             r['scenario'] = k
@@ -419,7 +450,7 @@ def evaluate(scratch, sd, tier, seed):
         flagged.add(v['id'])
         viol.append(dict(sig=dict(f='system:' + v['sig']['f'], phase=r['phase']),
                          replay=dict(scenario=notes[r['scenario']], phase=r['phase'], violation=v['sig'], final_world=r['steps'][-1]['world']),
-                         text='real processes, phase %s: %s' % (r['phase'], json.dumps(v['sig'], sort_keys=True))))
+                         text='real processes, replica %d, phase %s: %s' % (r['replica'], r['phase'], json.dumps(v['sig'], sort_keys=True))))
     for r in runs:
         if not r['converged_in_time'] and r['id'] not in flagged:
             viol.append(dict(sig=dict(f='system:not-reached-in-time', phase=r['phase']),
@@ -428,4 +459,4 @@ def evaluate(scratch, sd, tier, seed):
     return viol, dict(system_runs=len(notes), phases=len(runs), snapshots=sum(n['snapshots'] for n in notes), proxied_scrapes=sum(sum(n['scrapes']) for n in notes), reloads_refused=sum(n['reloads_refused'] for n in notes),
                       snapshots_with_a_transfer_pending=sum(n['snapshots_with_a_transfer_pending'] for n in notes),
                       what='real `kvass coordinator` and `kvass sidecar` processes over HTTP (static shard list, real discovery and explorer); simulated Prometheus instances '
-                           'and targets; phases: start, sidecar killed and restarted on its store, target added while every Prometheus refuses reloads for 1.5 s, target growing (relief hand-over between processes), target removed, configuration edited while every Prometheus refuses reloads')
+                           'and targets; phases: start, sidecar killed and restarted on its store, coordinator killed and restarted, (with several replicas: a whole replica down while a target is added, back, target removed,) target added while every Prometheus refuses reloads for 1.5 s, target growing (relief hand-over between processes), target removed, configuration edited while every Prometheus refuses reloads')
